@@ -579,8 +579,9 @@ class Runtime:
             coro = _h._dummy_coro()
             _h.keepalive.append(coro)
             return coro
-        _h.emit("cap.out", s, o, a, snp["val"], "ret")
-        return _h.val(snp["val"])
+        value = snp["val"] + (a if snp.get("byarg") else 0)
+        _h.emit("cap.out", s, o, a, value, "ret")
+        return _h.val(value)
 
     async def cap_async(_h, s: int, owner: int, **kw: Any) -> Any:
         snp = _h.prog["snp"][s - 1]
@@ -596,8 +597,9 @@ class Runtime:
             cls, v = _h.classify(exc)
             _h.emit("cap.out", s, o, a, v, cls)
             raise
-        _h.emit("cap.out", s, o, a, snp["val"], "ret")
-        return _h.val(snp["val"])
+        value = snp["val"] + (a if snp.get("byarg") else 0)
+        _h.emit("cap.out", s, o, a, value, "ret")
+        return _h.val(value)
 
     def errf(_h, c: int, role: str, owner: int, **kw: Any) -> Any:
         con = _h.prog["con"][c - 1]
